@@ -159,6 +159,41 @@ def run(tier, seed, rng):
         if o.get('ok') != want:
             failures.append(dict(kind='oracle', sig='two-described-fields', what=f"{cls}: described fields {a!r} (tracks body) and {b!r} (tracks comment), operations {list(combo)}: after each step [read {a}, read {b}, first two bytes of pack(), len(body), len(comment)] must be {want}; observed {str(o)[:300]}",
                                  classes=tsrc, cls=cls, history=list(combo), observed=o, required=want))
+    # ---- a described field that is OPTIONAL (Int(1).when(has_n).describe(...)): None is a legal explicit value there ("leave the
+    # field out of the wire"): assigned or given to the constructor it reads back as None until deleted, and pack() omits the field
+    osrc = ("from bisturi.packet import Packet\nfrom bisturi.field import Int, Data\nfrom bisturi.descriptor import Auto, AutoLength\n"
+            "class OptG(Packet):\n    has_n = Int(1)\n    n = Int(1).when(has_n).describe(AutoLength('a'))\n    a = Data(until_marker=b'\\x00')\n"
+            "class OptL(Packet):\n    __bisturi__ = {'generate_for_pack': False, 'generate_for_unpack': False}\n    has_n = Int(1)\n"
+            "    n = Int(1).when(has_n).describe(Auto(lambda pkt: len(pkt.a)))\n    a = Data(until_marker=b'\\x00')\n"
+            "def opt_run(cls, start, ops):\n    p = cls(has_n=1, a=b'xyz', **start)\n    out = [[p.n, list(p.pack())]]\n    for op in ops:\n"
+            "        if op == 'set7': p.n = 7\n        elif op == 'setNone': p.n = None\n        elif op == 'set0': p.n = 0\n        elif op == 'del': del p.n\n"
+            "        elif op == 'grow': p.a = p.a + b'w'\n        elif op == 'pack': p.pack()\n        out.append([p.n, list(p.pack())])\n    return out\n")
+    oops = ['set7', 'setNone', 'set0', 'del', 'grow', 'pack']
+    ocases, ometa = [], []
+    for cls in ('OptG', 'OptL'):
+        for start in ({}, {'n': None}, {'n': 5}, {'n': 0}):
+            for L in (0, 1, 2, 3):
+                for combo in _it2.product(oops, repeat=L):
+                    ocases.append(dict(cls=cls, op='default', value={"py": f"opt_run({cls}, {start!r}, {list(combo)!r})"})); ometa.append((cls, start, combo))
+    ores = run_impl(os.path.join(VERIF, 'harness', 'impl_pkt.py'), dict(header='', blocks=[dict(name='optdesc', src=osrc)], modname='c17o', cases=ocases))
+    dist['optional_described_histories'] = len(ocases)
+    UNSET = object()
+    for (cls, start, combo), o in zip(ometa, ores['outcomes']):
+        exp, a = start.get('n', UNSET), b'xyz'
+        def obs():
+            v = len(a) if exp is UNSET else exp
+            return [v, list(b'\x01' + (b'' if v is None else bytes([v])) + a + b'\x00')]
+        want = [obs()]
+        for op in combo:
+            if op == 'set7': exp = 7
+            elif op == 'setNone': exp = None
+            elif op == 'set0': exp = 0
+            elif op == 'del': exp = UNSET
+            elif op == 'grow': a += b'w'
+            want.append(obs())
+        if o.get('ok') != want:
+            failures.append(dict(kind='oracle', sig='optional-described-field', what=f"{cls}(has_n=1, a=b'xyz'{''.join(', %s=%r' % kv for kv in start.items())}), operations {list(combo)}: after each step [read n, pack()] must be {want}; observed {str(o)[:300]}",
+                                 classes=osrc, cls=cls, history=list(combo), observed=o, required=want))
     csize = 700
     files = [(f"cases_{i}", HEADER_COQ + "Definition cases : list (Z * list (dop Z) * list (Z * option Z)) := [\n" + ";\n".join(p) +
               "\n].\nEval vm_compute in (bad 0 cases).\n") for i, p in enumerate(shard(lines, csize))]
